@@ -76,6 +76,16 @@ EXPECTED_SHAPE = {
 }
 
 
+# repaired variant: no total_ordering, explicit partial-order operators
+EXPECTED_SHAPE_EXPLICIT = {
+    "SobolevSpace": {"decorators": [], "bases": [],
+                     "dunder": ["__contains__", "__eq__", "__ge__", "__getitem__", "__gt__", "__hash__", "__le__",
+                                "__lt__", "__ne__"]},
+    "DirectionalSobolevSpace": {"decorators": [], "bases": ["SobolevSpace"],
+                                "dunder": ["__contains__", "__eq__", "__getitem__", "__gt__", "__lt__"]},
+}
+
+
 def main(run):
     import ufl.sobolevspace as ss
     named = [(k, v) for k, v in vars(ss).items() if type(v) is ss.SobolevSpace]
@@ -111,11 +121,26 @@ def main(run):
         flag_raises = not isinstance(r_unknown, Exception)
     except Exception:  # noqa: BLE001
         flag_raises = True
-    run.extra["model_variant"] = {"dir_all_any": flag_all_any, "unknown_raises": flag_raises}
+    Hn = {v.name: v for _, v in named}
+    flag_explicit = not ((Hn["HDiv"] > Hn["HCurl"]) is True)
+
+    class _Ep:
+        def __init__(self, sp):
+            self.sobolev_space = sp
+    try:
+        flag_contains = (_Ep(Hn["H1"]) in Dp((1, 0))) is True
+    except Exception:  # noqa: BLE001
+        flag_contains = False
+    run.extra["model_variant"] = {"dir_all_any": flag_all_any, "unknown_raises": flag_raises,
+                                  "explicit_ops": flag_explicit, "contains_le": flag_contains}
     t.append("Definition S : specials := {| id_L2 := %d; id_H1 := %d; id_H2 := %d; id_H3 := %d; id_HInf := %d; "
-             "id_HDiv := %d; id_HCurl := %d; unknown_ids := [%s]; dir_all_any := %s; unknown_raises := %s |}.\n"
+             "id_HDiv := %d; id_HCurl := %d; unknown_ids := [%s]; dir_all_any := %s; unknown_raises := %s; "
+             "explicit_ops := %s; contains_le := %s; item_parents := [%s] |}.\n"
              % (ids["L2"], ids["H1"], ids["H2"], ids["H3"], ids["HInf"], ids["HDiv"], ids["HCurl"],
-                "; ".join(str(ids[u]) for u in UNKNOWN), str(flag_all_any).lower(), str(flag_raises).lower()))
+                "; ".join(str(ids[u]) for u in UNKNOWN), str(flag_all_any).lower(), str(flag_raises).lower(),
+                str(flag_explicit).lower(), str(flag_contains).lower(),
+                "; ".join("(%d, [%s])" % (ids[n], "; ".join(str(ids[p.name]) for p in sorted(Hn[n].parents, key=lambda p: ids[p.name])))
+                          for n in ("L2", "H1", "H2", "H3", "HInf"))))
     t.append("Definition grid : list sp := [" + "; ".join(cq(k, o) for k, o in grid) + "].\n")
     t.append("Definition named : list sp := map Named tbl.\n")
     # ---- theorems over the regenerated table / grid
@@ -137,8 +162,14 @@ def main(run):
         t.append("Theorem C25_parents_are_proper_supersets : tbl = []. (* set of predefined spaces changed: "
                  f"{sorted(set(ids) ^ set(MATH_COVERS))} *)\nProof. vm_compute. reflexivity. Qed.\n")
     # refutations (the faithful model reproduces the defects)
-    t.append("Theorem C25_gt_refuted : exists a b, In a named /\\ In b named /\\ py_gt S a b = RB true /\\ py_lt S b a = RB false.\n"
-             "Proof. exists (Named n_HDiv), (Named n_HCurl). vm_compute. repeat split; auto 20. Qed.\n")
+    if not flag_explicit:
+        t.append("Theorem C25_gt_refuted : exists a b, In a named /\\ In b named /\\ py_gt S a b = RB true /\\ py_lt S b a = RB false.\n"
+                 "Proof. exists (Named n_HDiv), (Named n_HCurl). vm_compute. repeat split; auto 20. Qed.\n")
+    elif flag_all_any:
+        # fully repaired: every operator is mathematically right on every pair of the grid (unknown spaces excepted)
+        t.append("Theorem C25_all_ok_everywhere : all_ok_everywhere S tbl grid = true. Proof. vm_compute. reflexivity. Qed.\n")
+        t.append("Theorem C25_named_gt_is_flipped_lt : law_gt_is_flipped_lt S named = true. Proof. vm_compute. reflexivity. Qed.\n")
+        t.append("Theorem C25_named_ge_is_flipped_le : law_ge_is_flipped_le S named = true. Proof. vm_compute. reflexivity. Qed.\n")
     if not flag_raises:
         t.append("Theorem C25_unknown_refuted : exists a b, py_lt S (Dir a) (Named b) = RObj.\n"
                  "Proof. exists [Fin 1; Fin 1], n_HEin. vm_compute. reflexivity. Qed.\n")
@@ -189,8 +220,11 @@ def main(run):
     t.append("Example corr_contains_dir : map (fun b => map (contains_dir S b) tbl) dirs = [" + "; ".join(drows)
              + "].\nProof. vm_compute. reflexivity. Qed.\n")
     t.append("Theorem C25_membership_dir_ok : membership_dir_ok S tbl dirs tbl = true. Proof. vm_compute. reflexivity. Qed.\n")
-    t.append("Theorem C25_membership_dir_refuted : exists b e, contains_dir S b e = RB false /\\ sub_spec S tbl (Named e) (Dir b) = true.\n"
-             "Proof. exists [Fin 1; Fin 0], n_H1. vm_compute. auto. Qed.\n")
+    if not flag_contains:
+        t.append("Theorem C25_membership_dir_refuted : exists b e, contains_dir S b e = RB false /\\ sub_spec S tbl (Named e) (Dir b) = true.\n"
+                 "Proof. exists [Fin 1; Fin 0], n_H1. vm_compute. auto. Qed.\n")
+    else:
+        t.append("Theorem C25_membership_dir_all : membership_dir_all S tbl dirs tbl = true. Proof. vm_compute. reflexivity. Qed.\n")
     t.append("Print Assumptions C25_grid_ok_outside_known.\nPrint Assumptions C25_named_trans.\n")
     path = os.path.join(vlib.GEN, "C25_table.v")
     vlib.write_if_changed(path, "".join(t))
@@ -207,7 +241,8 @@ def main(run):
                 "a<b": observed.get(("lt", "DirectionalH(2, 0)", "DirectionalH(0, 2)")),
                 "b<a": observed.get(("lt", "DirectionalH(0, 2)", "DirectionalH(2, 0)"))})
 
-    shape_ok = all(shape.get(k) == v for k, v in EXPECTED_SHAPE.items())
+    expected_shape = EXPECTED_SHAPE_EXPLICIT if flag_explicit else EXPECTED_SHAPE
+    shape_ok = all(shape.get(k) == v for k, v in expected_shape.items())
     # ---- known findings: replay the recorded witnesses on the real code
     known = {k["id"]: k for k in vlib.load_known_findings("C25")}
     H = {v.name: v for _, v in named}
